@@ -22,6 +22,8 @@ pub struct FaultCounts {
     pub exotic: u32,
     pub nonfinite: u32,
     pub collide: u32,
+    /// of the corrupt faults, those that planted a very large value
+    pub huge: u32,
 }
 
 impl FaultCounts {
@@ -42,6 +44,7 @@ impl FaultCounts {
         self.exotic += o.exotic;
         self.nonfinite += o.nonfinite;
         self.collide += o.collide;
+        self.huge += o.huge;
     }
     pub fn as_pairs(&self) -> Vec<(&'static str, u32)> {
         vec![
@@ -58,6 +61,7 @@ impl FaultCounts {
             ("SRC-EXOTIC", self.exotic),
             ("SRC-NONFINITE", self.nonfinite),
             ("SRC-KEYCOLLIDE", self.collide),
+            ("SRC-HUGE", self.huge),
         ]
     }
 }
@@ -379,7 +383,55 @@ impl FaultCfg {
     }
 }
 
+/// A value whose rendering runs to hundreds or thousands of bytes, made of characters of every
+/// UTF-8 width and of characters JSON must escape, so that any fixed byte offset falls inside a
+/// multi-byte character for some of them.
+fn huge_doc(rng: &mut Rng) -> Doc {
+    const UNITS: [&str; 8] = ["a", "b", "é", "漢", "😀", "\"", "\\", "ß"];
+    let text = |rng: &mut Rng, n: usize| -> String { (0..n).map(|_| *rng.pick(&UNITS)).collect() };
+    match rng.below(3) {
+        0 => {
+            let n = 150 + rng.below(1100);
+            Doc::Str(text(rng, n))
+        }
+        1 => {
+            let n = 60 + rng.below(300);
+            Doc::Seq(
+                (0..n)
+                    .map(|i| if rng.chance(1, 3) { Doc::Int(i as u64) } else { let k = 1 + rng.below(6); Doc::Str(text(rng, k)) })
+                    .collect(),
+            )
+        }
+        _ => {
+            let n = 40 + rng.below(160);
+            Doc::Map(
+                (0..n)
+                    .map(|i| {
+                        let k = 1 + rng.below(4);
+                        (format!("{}{i}", text(rng, k)), if rng.chance(1, 2) { Doc::Null } else { Doc::Str(text(rng, 2)) })
+                    })
+                    .collect(),
+            )
+        }
+    }
+}
+
+pub fn is_huge(doc: &Doc) -> bool {
+    match doc {
+        Doc::Str(s) => s.len() >= 150,
+        Doc::Seq(v) => v.len() >= 60,
+        Doc::Map(m) => m.len() >= 40,
+        _ => false,
+    }
+}
+
 fn other_kind(doc: &Doc, rng: &mut Rng) -> Doc {
+    if rng.chance(1, 12) {
+        let h = huge_doc(rng);
+        if h.kind() != doc.kind() {
+            return h;
+        }
+    }
     for _ in 0..10 {
         let c = match rng.below(8) {
             0 => Doc::Null,
@@ -501,6 +553,9 @@ impl<'a> Mutator<'a> {
         if self.cfg.corrupt && self.hit(rng) {
             *doc = other_kind(doc, rng);
             self.counts.corrupt += 1;
+            if is_huge(doc) {
+                self.counts.huge += 1;
+            }
             return;
         }
         if self.cfg.null && self.hit(rng) && !matches!(doc, Doc::Null) {
